@@ -61,8 +61,18 @@ def markov_rank_oracle(t):
     key = "mean_flat"
     if isinstance(base, T.Term) and base.op == "attr" and base.args[1] == "noise":
         base, key = base.args[0], "noise.mean_flat"
+    drop = 0
     for _ in range(8):
         if not isinstance(base, T.Term):
+            return None
+        if base.op == "tree.tree_map" and len(base.args) == 2 and isinstance(base.args[0], T.Term) and base.args[0].op == "lam" and base.args[0].args[0] == 1:
+            # tree_map(lambda s: s[i, ...], x): every leaf loses its leading axis
+            body = base.args[0].args[1]
+            if isinstance(body, T.Term) and body.op == "getitem" and isinstance(body.args[0], T.Term) and body.args[0].op == "leaf_of" and body.args[0].args[0] is base.args[1]:
+                idx = body.args[1] if isinstance(body.args[1], tuple) else (body.args[1],)
+                if idx and isinstance(idx[0], int) and not isinstance(idx[0], bool) and all(i_ is Ellipsis for i_ in idx[1:]):
+                    base, drop = base.args[1], drop + 1
+                    continue
             return None
         if base.op == "mcall" and base.args[1] in ("rescale_cholesky", "rescale_noise"):
             base = base.args[0]
@@ -72,4 +82,5 @@ def markov_rank_oracle(t):
             continue
         break
     d = base.meta.get("ndims") if isinstance(base, T.Term) else None
-    return d.get(key) if d else None
+    r = d.get(key) if d else None
+    return None if r is None else r - drop
